@@ -163,26 +163,28 @@ Section HistProofs.
 
   (* ---------------- refit on update ---------------- *)
 
-  (* once a horizon is known, update(y, update_params=True) leaves the forecaster in exactly the
-     state of a fresh one fitted on the union of the remembered data and y *)
-  Lemma refit_on_update_equals_fresh_fit l (s : fstateT) y h :
-    ffh lpar s = Some h ->
-    do_update' l s y true = (fit_state' l (cfirst y (fmem lpar s)) (Some h), true).
+  (* update(y, update_params=True) leaves the forecaster in exactly the state of a fresh one fitted
+     on the union of the remembered data and y, with the horizon seen so far - whether or not a
+     horizon has been given yet *)
+  Lemma refit_on_update_equals_fresh_fit l (s : fstateT) y :
+    do_update' l s y true = (fit_state' l (cfirst y (fmem lpar s)) (ffh lpar s), true).
   Proof.
-    intro H. unfold do_update.
-    assert (F : ffh lpar (mem_upd' s y) = Some h) by (destruct y; exact H).
+    unfold do_update.
+    assert (F : ffh lpar (mem_upd' s y) = ffh lpar s) by (destruct y; reflexivity).
     rewrite F, mem_upd_mem. reflexivity.
   Qed.
 
   (* the property's sentence: fit(y1); update(y2); predict == fit(y1 followed by y2); predict,
-     on the returned forecast, the cutoff, the remembered data and the stored horizon *)
-  Lemma fit_update_equals_fit_on_union l y1 y2 h :
-    last (run' l y1 (Some h) [OUpdate y2 true; OPredict None]) (BErr, 0, [], None) =
-    last (run' l (cfirst y2 y1) (Some h) [OPredict None]) (BErr, 0, [], None).
+     on the returned forecast, the cutoff, the remembered data and the stored horizon; the horizon
+     may be given at fit (fh0 = Some _, fp = None), at predict (fh0 = None, fp = Some _), at both,
+     or never (then both sides report the same missing-horizon error) *)
+  Lemma fit_update_equals_fit_on_union l y1 y2 fh0 fp :
+    last (run' l y1 fh0 [OUpdate y2 true; OPredict fp]) (BErr, 0, [], None) =
+    last (run' l (cfirst y2 y1) fh0 [OPredict fp]) (BErr, 0, [], None).
   Proof.
     unfold run. cbn [run_ops step].
-    rewrite (refit_on_update_equals_fresh_fit l (fit_state' l y1 (Some h)) y2 h eq_refl).
-    cbn [fit_state fmem]. unfold do_predict. cbn [set_fh fit_state ffh]. reflexivity.
+    rewrite (refit_on_update_equals_fresh_fit l (fit_state' l y1 fh0) y2).
+    cbn [fit_state fmem ffh]. reflexivity.
   Qed.
 
   (* ... and "y1 followed by y2" is literal when y2 lies after y1 *)
